@@ -29,7 +29,7 @@ def plan(tier, seed, rng, scale):
     descs = []
     for k in G.ALL_K[1:]:          # k = 7..63 forced once each
         descs.append({'k': k, 'route': 'skf', 'seed': rng.getrandbits(32)})
-    n = int((2500 if tier == 'quick' else 50000) * scale)
+    n = int((10000 if tier == 'quick' else 60000) * scale)
     for i in range(n):
         if i % 6 == 0:
             descs.append({'k': 17, 'route': 'fasta', 'seed': rng.getrandbits(32)})
